@@ -53,6 +53,8 @@ use std::backtrace::Backtrace;
 use std::backtrace;
 pub type MyBt = std::backtrace::Backtrace;
 pub fn lid(l: &Leaf) -> String { format!("Leaf({})@{}", l.0, addr(l)) }
+pub fn rlid(l: &&'static Leaf) -> String { lid(*l) }
+pub fn leak(l: Leaf) -> &'static Leaf { Box::leak(Box::new(l)) }
 // a boxed error that has a source of its own: `source()` of the outer type must still be the boxed
 // object itself, not one level further down the chain
 #[derive(Debug)]
@@ -261,6 +263,9 @@ class Conc:
                     bt_, fn = rng.choice(BOXES)
                     boxed = "Box::new(Leaf(%d))" % p if rng.random() < 0.55 else "Box::new(Chain(%d, Leaf(%d)))" % (p, p + 1)
                     self.ty.append(bt_); self.inst.append(None); self.val.append(boxed); self.idf.append(fn)
+                elif rich and not needs_nightly(L) and rng.random() < 0.15:
+                    # a source held by reference (not a path type)
+                    self.ty.append("&'static Leaf"); self.inst.append(None); self.val.append("leak(Leaf(%d))" % p); self.idf.append("rlid")
                 else:
                     self.ty.append("Leaf"); self.inst.append(None); self.val.append("Leaf(%d)" % p); self.idf.append("lid")
             elif c == BT:
